@@ -600,7 +600,17 @@ type v16Store struct{ dir, file string }
 
 // viper fsyncs every file it writes; on the build disk that dominates the run time with 16 workers.
 // The property is about process kills, not power loss, so the files may live on tmpfs.
+var v16TmpBaseCache *string
+
 func v16TmpBase() string {
+	if v16TmpBaseCache == nil {
+		b := v16TmpBaseProbe()
+		v16TmpBaseCache = &b
+	}
+	return *v16TmpBaseCache
+}
+
+func v16TmpBaseProbe() string {
 	if fi, err := os.Stat("/dev/shm"); err == nil && fi.IsDir() {
 		if d, err := os.MkdirTemp("/dev/shm", "c16probe"); err == nil {
 			os.Remove(d)
@@ -634,29 +644,51 @@ func (s *v16Store) boot() error {
 
 // v16StartupDecode makes the viper.UnmarshalKey calls of RunRPCServer (same keys, same pre-set
 // defaults in the targets) and of PrepareRun ("trigger").
-func v16StartupDecode() (c *v16Config, errs []string) {
+func v16StartupDecode(kinds []int) (c *v16Config, errs []string) {
 	c = &v16Config{writing: &WritingState{}}
 	chk := func(key string, err error) {
 		if err != nil {
 			errs = append(errs, key+": "+err.Error())
 		}
 	}
-	c.simpulse.SampleRate = 1000.0
-	chk("simpulse", viper.UnmarshalKey("simpulse", &c.simpulse))
-	c.triangle.SampleRate = 1000.0
-	chk("triangle", viper.UnmarshalKey("triangle", &c.triangle))
-	chk("lancero", viper.UnmarshalKey("lancero", &c.lancero))
-	c.abaco.AbacoUnwrapOptions.Unwrap = true
-	c.abaco.AbacoUnwrapOptions.ResetAfter = 20000
-	chk("abaco", viper.UnmarshalKey("abaco", &c.abaco))
-	chk("roach", viper.UnmarshalKey("roach", &c.roach))
-	c.status.ChanGroups = make([]GroupIndex, 0) // NewSourceControl
-	chk("status", viper.UnmarshalKey("status", &c.status))
-	chk("writing", viper.UnmarshalKey("writing", c.writing))
-	chk("tesmapfile", viper.UnmarshalKey("tesmapfile", &c.mapfile))
-	var fts []FullTriggerState
-	chk("trigger", viper.UnmarshalKey("trigger", &fts))
-	c.trigger = fts
+	want := map[int]bool{}
+	for _, k := range kinds {
+		want[k] = true
+	}
+	if want[v16kSimPulse] {
+		c.simpulse.SampleRate = 1000.0
+		chk("simpulse", viper.UnmarshalKey("simpulse", &c.simpulse))
+	}
+	if want[v16kTriangle] {
+		c.triangle.SampleRate = 1000.0
+		chk("triangle", viper.UnmarshalKey("triangle", &c.triangle))
+	}
+	if want[v16kLancero] {
+		chk("lancero", viper.UnmarshalKey("lancero", &c.lancero))
+	}
+	if want[v16kAbaco] {
+		c.abaco.AbacoUnwrapOptions.Unwrap = true
+		c.abaco.AbacoUnwrapOptions.ResetAfter = 20000
+		chk("abaco", viper.UnmarshalKey("abaco", &c.abaco))
+	}
+	if want[v16kRoach] {
+		chk("roach", viper.UnmarshalKey("roach", &c.roach))
+	}
+	if want[v16kStatus] {
+		c.status.ChanGroups = make([]GroupIndex, 0) // NewSourceControl
+		chk("status", viper.UnmarshalKey("status", &c.status))
+	}
+	if want[v16kWriting] {
+		chk("writing", viper.UnmarshalKey("writing", c.writing))
+	}
+	if want[v16kMapFile] {
+		chk("tesmapfile", viper.UnmarshalKey("tesmapfile", &c.mapfile))
+	}
+	if want[v16kTrigger] {
+		var fts []FullTriggerState
+		chk("trigger", viper.UnmarshalKey("trigger", &fts))
+		c.trigger = fts
+	}
 	return
 }
 
@@ -665,25 +697,33 @@ var v16TriggerSkip = map[string]bool{"EdgeMulti": true, "EMTState": true}
 
 // v16Compare judges every structure start-up reads. focus names the kind the execution enumerates
 // (its class is reported first).
-func v16Compare(saved, read *v16Config, stage string) (cls, text string) {
+func v16Compare(saved, read *v16Config, kinds []int, stage string) (cls, text string) {
 	type pair struct {
+		kind int
 		name string
 		a, b interface{}
 		skip map[string]bool
 	}
 	pairs := []pair{
-		{"status", saved.status, read.status, nil},
-		{"trigger", saved.trigger, read.trigger, v16TriggerSkip},
+		{v16kStatus, "status", saved.status, read.status, nil},
+		{v16kTrigger, "trigger", saved.trigger, read.trigger, v16TriggerSkip},
 		// RunRPCServer uses the output base path only
-		{"writing", struct{ BasePath string }{saved.writing.BasePath}, struct{ BasePath string }{read.writing.BasePath}, nil},
-		{"simpulse", saved.simpulse, read.simpulse, nil},
-		{"triangle", saved.triangle, read.triangle, nil},
-		{"lancero", saved.lancero, read.lancero, nil},
-		{"abaco", saved.abaco, read.abaco, nil},
-		{"roach", saved.roach, read.roach, nil},
-		{"tesmapfile", saved.mapfile, read.mapfile, nil},
+		{v16kWriting, "writing", struct{ BasePath string }{saved.writing.BasePath}, struct{ BasePath string }{read.writing.BasePath}, nil},
+		{v16kSimPulse, "simpulse", saved.simpulse, read.simpulse, nil},
+		{v16kTriangle, "triangle", saved.triangle, read.triangle, nil},
+		{v16kLancero, "lancero", saved.lancero, read.lancero, nil},
+		{v16kAbaco, "abaco", saved.abaco, read.abaco, nil},
+		{v16kRoach, "roach", saved.roach, read.roach, nil},
+		{v16kMapFile, "tesmapfile", saved.mapfile, read.mapfile, nil},
+	}
+	want := map[int]bool{}
+	for _, k := range kinds {
+		want[k] = true
 	}
 	for _, p := range pairs {
+		if !want[p.kind] {
+			continue
+		}
 		if c, t := v16Diff(p.a, p.b, p.skip); c != "" || t != "" {
 			return "c16b-roundtrip-" + p.name + ":" + c, stage + ": " + p.name + " differs after the round trip: " + t
 		}
@@ -718,7 +758,13 @@ func v16PrepareRunCheck(saved []FullTriggerState, stage string) (cls, text strin
 
 // v16RoundTrip is one execution of part (b): run 1 saves v1 (every topic), run 2 starts from the file,
 // re-publishes only the topics in `kinds` with the values of v2 and saves, run 3 starts from the file.
-func v16RoundTrip(x *vexp.X, v1, v2 *v16Config, kinds []int, withPrepareRun bool) vexp.Result {
+// lean: only the topics in `kinds` (and one no-save topic) exist at all — used for the large trigger
+// family, whose cost is otherwise dominated by encoding and decoding the unrelated topics.
+func v16RoundTrip(x *vexp.X, v1, v2 *v16Config, kinds []int, withPrepareRun bool, lean bool) vexp.Result {
+	all := v16AllKinds
+	if lean {
+		all = kinds
+	}
 	s := v16NewStore()
 	defer s.close()
 	defer viper.Reset()
@@ -734,8 +780,12 @@ func v16RoundTrip(x *vexp.X, v1, v2 *v16Config, kinds []int, withPrepareRun bool
 		v16Infra("boot on empty file: %v", err)
 	}
 	last := map[string]interface{}{}
-	v1.publish(last, v16AllKinds...)
-	v16NoSave(last, 1)
+	v1.publish(last, all...)
+	if lean {
+		last["ALIVE"] = Heartbeat{Running: true, Time: 1}
+	} else {
+		v16NoSave(last, 1)
+	}
 	saveState(last)
 	x.Steps++
 	main1, err := os.ReadFile(s.file)
@@ -756,11 +806,11 @@ func v16RoundTrip(x *vexp.X, v1, v2 *v16Config, kinds []int, withPrepareRun bool
 	if err := s.boot(); err != nil {
 		return fail("c16b-startup-cannot-read-config", "the next start-up cannot read the saved file: "+err.Error())
 	}
-	read, errs := v16StartupDecode()
+	read, errs := v16StartupDecode(all)
 	if len(errs) > 0 {
 		return fail("c16b-startup-decode-error", "UnmarshalKey failed on the saved file: "+strings.Join(errs, "; "))
 	}
-	if c, t := v16Compare(v1, read, "run 2"); t != "" {
+	if c, t := v16Compare(v1, read, all, "run 2"); t != "" {
 		return fail(c, t)
 	}
 	for _, k := range v16NoSaveKeys {
@@ -769,7 +819,7 @@ func v16RoundTrip(x *vexp.X, v1, v2 *v16Config, kinds []int, withPrepareRun bool
 		}
 	}
 	for _, k := range v16OtherPersistentKeys {
-		if !viper.IsSet(k) {
+		if !viper.IsSet(k) && !(lean && k != "currenttime") {
 			return fail("c16b-persistent-topic-missing", "persistent topic "+k+" is not in the configuration file")
 		}
 	}
@@ -781,7 +831,11 @@ func v16RoundTrip(x *vexp.X, v1, v2 *v16Config, kinds []int, withPrepareRun bool
 	// run 2 publishes new values for some topics (its updater's map starts empty) and saves
 	last = map[string]interface{}{}
 	v2.publish(last, kinds...)
-	v16NoSave(last, 2)
+	if lean {
+		last["ALIVE"] = Heartbeat{Running: true, Time: 2}
+	} else {
+		v16NoSave(last, 2)
+	}
 	saveState(last)
 	x.Steps++
 	if b, err := os.ReadFile(bak); err != nil || string(b) != string(main1) {
@@ -815,11 +869,11 @@ func v16RoundTrip(x *vexp.X, v1, v2 *v16Config, kinds []int, withPrepareRun bool
 	if err := s.boot(); err != nil {
 		return fail("c16b-startup-cannot-read-config", "start-up after the second save cannot read the file: "+err.Error())
 	}
-	read, errs = v16StartupDecode()
+	read, errs = v16StartupDecode(all)
 	if len(errs) > 0 {
 		return fail("c16b-startup-decode-error", "UnmarshalKey failed after the second save: "+strings.Join(errs, "; "))
 	}
-	if c, t := v16Compare(&want, read, "run 3 (after a second save with changed values)"); t != "" {
+	if c, t := v16Compare(&want, read, all, "run 3 (after a second save with changed values)"); t != "" {
 		return fail(c+"(second-save)", t)
 	}
 	for _, k := range v16NoSaveKeys {
@@ -943,18 +997,18 @@ func TestVerifC16(t *testing.T) {
 	groups := [][]GroupIndex{nil, {}, {{0, 4}}, {{1, 8}, {9, 8}}}
 	projs := [][]int{nil, {0, 3}}
 	srcNames := []string{"", "Lancero", "Sim Pulses ü: #1"}
-	for lp := range lenPairs {
-		lp := lp
-		r.DFS(fmt.Sprintf("b/status/nsamples=%d,npresamp=%d", lenPairs[lp][0], lenPairs[lp][1]), -1, func(x *vexp.X) vexp.Result {
+	for lpp := 0; lpp < len(lenPairs)*len(periods); lpp++ {
+		lp, p := lpp/len(periods), lpp%len(periods)
+		r.DFS(fmt.Sprintf("b/status/nsamples=%d,npresamp=%d/period=%v", lenPairs[lp][0], lenPairs[lp][1], periods[p]), -1, func(x *vexp.X) vexp.Result {
 			mk := func(lp, p, g, pj, run, sn, nc int) ServerStatus {
 				return ServerStatus{Running: run == 1, SourceName: srcNames[sn], Nchannels: 8 * nc, Nsamples: lenPairs[lp][0], Npresamp: lenPairs[lp][1],
 					SamplePeriod: periods[p], ChanGroups: groups[g], ChannelsWithProjectors: projs[pj]}
 			}
-			p, g, pj, run, sn, nc := x.Choose(len(periods)), x.Choose(len(groups)), x.Choose(len(projs)), x.Choose(2), x.Choose(len(srcNames)), x.Choose(2)
+			g, pj, run, sn, nc := x.Choose(len(groups)), x.Choose(len(projs)), x.Choose(2), x.Choose(len(srcNames)), x.Choose(2)
 			v1, v2 := *base1, *base2
 			v1.status = mk(lp, p, g, pj, run, sn, nc)
 			v2.status = mk((lp+1)%len(lenPairs), (p+1)%len(periods), (g+1)%len(groups), 1-pj, 1-run, (sn+1)%len(srcNames), 1-nc)
-			res := v16RoundTrip(x, &v1, &v2, []int{v16kStatus, v16kWriting}, false)
+			res := v16RoundTrip(x, &v1, &v2, []int{v16kStatus, v16kWriting}, false, false)
 			res.Nontrivial = res.Nontrivial || v16Nontrivial(v1.status)
 			res.Desc = fmt.Sprintf("STATUS %+v", v1.status)
 			return res
@@ -992,7 +1046,7 @@ func TestVerifC16(t *testing.T) {
 					v1, v2 := *base1, *base2
 					v1.trigger = list
 					v2.trigger = []FullTriggerState{{ChannelIndices: v16ChanLists[(ci+1)%len(v16ChanLists)], TriggerState: ts2}}
-					res := v16RoundTrip(x, &v1, &v2, []int{v16kTrigger}, true)
+					res := v16RoundTrip(x, &v1, &v2, []int{v16kTrigger}, true, true)
 					res.Nontrivial = res.Nontrivial || (len(focus.ChannelIndices) > 0 && v16Nontrivial(ts))
 					res.Desc = fmt.Sprintf("TRIGGER %+v", list)
 					return res
@@ -1008,7 +1062,7 @@ func TestVerifC16(t *testing.T) {
 		v1.writing = &WritingState{BasePath: v16BasePaths[i], Active: act == 1, Paused: act == 1, FilenamePattern: "p_%s.%s", WriteOFF: act == 1,
 			ExperimentStateFilename: "/x/experiment_state.txt", ExperimentStateLabel: "START", ExperimentStateLabelUnixNano: 1614834367500000000}
 		v2.writing = &WritingState{BasePath: v16BasePaths[(i+1)%len(v16BasePaths)], Active: act == 0}
-		res := v16RoundTrip(x, &v1, &v2, []int{v16kWriting, v16kMapFile}, false)
+		res := v16RoundTrip(x, &v1, &v2, []int{v16kWriting, v16kMapFile}, false, false)
 		res.Nontrivial = res.Nontrivial || v16BasePaths[i] != ""
 		res.Desc = fmt.Sprintf("WRITING BasePath=%q", v16BasePaths[i])
 		return res
@@ -1043,7 +1097,7 @@ func TestVerifC16(t *testing.T) {
 		i := x.Choose(len(sims))
 		v1, v2 := *base1, *base2
 		v1.simpulse, v2.simpulse = sims[i], sims[(i+1)%len(sims)]
-		res := v16RoundTrip(x, &v1, &v2, []int{v16kSimPulse}, false)
+		res := v16RoundTrip(x, &v1, &v2, []int{v16kSimPulse}, false, false)
 		res.Nontrivial = res.Nontrivial || v16Nontrivial(sims[i])
 		res.Desc = fmt.Sprintf("SIMPULSE %+v", sims[i])
 		return res
@@ -1052,7 +1106,7 @@ func TestVerifC16(t *testing.T) {
 		i := x.Choose(len(tris))
 		v1, v2 := *base1, *base2
 		v1.triangle, v2.triangle = tris[i], tris[(i+1)%len(tris)]
-		res := v16RoundTrip(x, &v1, &v2, []int{v16kTriangle}, false)
+		res := v16RoundTrip(x, &v1, &v2, []int{v16kTriangle}, false, false)
 		res.Nontrivial = res.Nontrivial || v16Nontrivial(tris[i])
 		res.Desc = fmt.Sprintf("TRIANGLE %+v", tris[i])
 		return res
@@ -1061,7 +1115,7 @@ func TestVerifC16(t *testing.T) {
 		i := x.Choose(len(lans))
 		v1, v2 := *base1, *base2
 		v1.lancero, v2.lancero = lans[i], lans[(i+1)%len(lans)]
-		res := v16RoundTrip(x, &v1, &v2, []int{v16kLancero}, false)
+		res := v16RoundTrip(x, &v1, &v2, []int{v16kLancero}, false, false)
 		res.Nontrivial = res.Nontrivial || v16Nontrivial(lans[i])
 		res.Desc = fmt.Sprintf("LANCERO %+v", lans[i])
 		return res
@@ -1073,7 +1127,7 @@ func TestVerifC16(t *testing.T) {
 			v1, v2 := *base1, *base2
 			v1.abaco = AbacoSourceConfig{ActiveCards: intLists[ac], AvailableCards: intLists[(ac+2)%3], HostPortUDP: strLists[hp], AbacoUnwrapOptions: mkUnwrap(bits, ra, ps, inv)}
 			v2.abaco = AbacoSourceConfig{ActiveCards: intLists[(ac+1)%3], AvailableCards: intLists[ac], HostPortUDP: strLists[(hp+1)%3], AbacoUnwrapOptions: mkUnwrap(7-bits, (ra+1)%3, (ps+1)%3, (inv+1)%3)}
-			res := v16RoundTrip(x, &v1, &v2, []int{v16kAbaco}, false)
+			res := v16RoundTrip(x, &v1, &v2, []int{v16kAbaco}, false, false)
 			res.Nontrivial = res.Nontrivial || v16Nontrivial(v1.abaco)
 			res.Desc = fmt.Sprintf("ABACO %+v", v1.abaco)
 			return res
@@ -1084,7 +1138,7 @@ func TestVerifC16(t *testing.T) {
 			v1, v2 := *base1, *base2
 			v1.roach = RoachSourceConfig{HostPort: strLists[hp], Rates: rates[rt], AbacoUnwrapOptions: mkUnwrap(bits, ra, ps, inv)}
 			v2.roach = RoachSourceConfig{HostPort: strLists[(hp+1)%3], Rates: rates[(rt+1)%3], AbacoUnwrapOptions: mkUnwrap(7-bits, (ra+1)%3, (ps+1)%3, (inv+1)%3)}
-			res := v16RoundTrip(x, &v1, &v2, []int{v16kRoach}, false)
+			res := v16RoundTrip(x, &v1, &v2, []int{v16kRoach}, false, false)
 			res.Nontrivial = res.Nontrivial || v16Nontrivial(v1.roach)
 			res.Desc = fmt.Sprintf("ROACH %+v", v1.roach)
 			return res
@@ -1094,7 +1148,7 @@ func TestVerifC16(t *testing.T) {
 		i := x.Choose(len(maps))
 		v1, v2 := *base1, *base2
 		v1.mapfile, v2.mapfile = maps[i], maps[(i+1)%len(maps)]
-		res := v16RoundTrip(x, &v1, &v2, []int{v16kMapFile}, false)
+		res := v16RoundTrip(x, &v1, &v2, []int{v16kMapFile}, false, false)
 		res.Nontrivial = res.Nontrivial || maps[i] != ""
 		res.Desc = fmt.Sprintf("TESMAPFILE %q", maps[i])
 		return res
@@ -1102,7 +1156,7 @@ func TestVerifC16(t *testing.T) {
 	// every topic changes in the second run
 	r.DFS("b/all-topics-change", -1, func(x *vexp.X) vexp.Result {
 		n := x.Choose(4)
-		res := v16RoundTrip(x, v16Baseline(n), v16Baseline(n+5), v16AllKinds, true)
+		res := v16RoundTrip(x, v16Baseline(n), v16Baseline(n+5), v16AllKinds, true, false)
 		res.Nontrivial = true
 		res.Desc = fmt.Sprintf("all topics, baseline %d then %d", n, n+5)
 		return res
